@@ -196,6 +196,41 @@ theorem C09_ok_status_was_delivered (utf8 : Bool) (pool : Pool) (tx : Tx) (id : 
   · intro h; simp at h
   · intro h; exact ok_status_delivered _ _ hs id h
 
+theorem count_map_pair (l : List Nat) (b : Bool) (id : Nat) :
+    (l.map (fun x => (x, b))).count (id, true) = if b = true then l.count id else 0 := by
+  induction l with
+  | nil => simp
+  | cons y r ih =>
+    simp only [List.map_cons, List.count_cons, ih]
+    cases b <;> simp
+
+theorem ok_status_count_delivered (conns : Conns) (f : Nat → Bool) (h : Synced conns) (id : Nat) :
+    (bodyStatuses conns f).count (id, true) = (delivered conns f).count id := by
+  induction conns with
+  | nil => simp [bodyStatuses, delivered]
+  | cons e rest ih =>
+    have he : e.2.rcpts = e.2.wire := h e (by simp)
+    have hr : Synced rest := fun x hx => h x (by simp [hx])
+    have ih' := ih hr
+    simp only [bodyStatuses, delivered, List.flatMap_cons, List.count_append] at ih' ⊢
+    rw [ih', count_map_pair, he]
+    by_cases hb : (!e.2.dead && !f e.1) = true
+    · simp [hb]
+    · simp [hb]
+
+/-- **C09 (remote target, ground truth, with multiplicity).** The same address may be accepted several
+times in one transaction (exact duplicates — two aliases expanded to one mailbox): an address is
+reported as delivered exactly as many times as the next hop holds it in transactions it answered 250,
+so a duplicate is neither swallowed on the way out nor reported once too often. -/
+theorem C09_ok_status_count_eq_delivered (utf8 : Bool) (pool : Pool) (tx : Tx) (id : Nat) :
+    let o := (runTx utf8 pool tx).2
+    o.statuses.count (id, true) = o.delivered.count id := by
+  simp only [runTx]
+  have hs := addAll_synced utf8 tx.rcpts [] pool [] (by intro e he; simp at he)
+  split
+  · simp
+  · exact ok_status_count_delivered _ _ hs id
+
 /-- A status for a recipient of a connection that broke is a failure. -/
 theorem C09_dead_connection_statuses_fail (conns : Conns) (f : Nat → Bool) (d : Nat) (c : Conn)
     (hmem : (d, c) ∈ conns) (hdead : c.dead = true) (id : Nat) (hid : id ∈ c.rcpts) :
@@ -308,5 +343,20 @@ def faultTx : Tx := { rcpts := [⟨1, 0, false, false, true, false⟩, ⟨2, 0, 
 example : (runTx false [] faultTx).2.adds = [(1, true), (2, true), (3, false), (4, false), (5, true)] := by decide
 example : (runTx false [] faultTx).2.statuses = [(1, false), (2, false), (5, true)] := by decide
 example : (runTx false [] faultTx).2.delivered = [5] := by decide
+
+/-- exact duplicates: address 1 is given three times (accepted, refused, accepted), then address 2 on
+another connection whose DATA fails: two results for 1, one for 2, the next hop holds 1 twice. -/
+def dupTx : Tx := { rcpts := [⟨1, 0, false, false, true, false⟩, ⟨1, 0, false, false, false, false⟩, ⟨1, 0, false, false, true, false⟩,
+                              ⟨2, 1, false, false, true, false⟩],
+                    dataFail := fun d => d == 1 }
+example : (runTx false [] dupTx).2.adds = [(1, true), (1, false), (1, true), (2, true)] := by decide
+example : (runTx false [] dupTx).2.statuses = [(1, true), (1, true), (2, false)] := by decide
+example : (runTx false [] dupTx).2.delivered = [1, 1] := by decide
+/-- LMTP: the same address accepted twice gets the replies at ITS two positions, the recipient after
+it keeps its own reply (nothing shifts). -/
+example : lmtpStatuses [1, 1, 2] [true, false, true] = [(1, true), (1, false), (2, true)] := by decide
+/-- pipeline: a modifier that only changes the spelling (key 17 = another spelling of the mailbox the
+client gave as key 16) is a rewrite like any other: the result comes back under the spelling given. -/
+example : translate [(17, 16)] 17 = 16 ∧ translate [(17, 16)] 16 = 16 := by decide
 
 end MaddyVerif.C09
